@@ -194,7 +194,7 @@ CHECKS = {
              "after quiescence; rebuild as of every prefix length q of the event log (q symbolic) against folding exactly the events with "
              "sequence <= q; snapshot at every position p (symbolic) plus tail against the full replay; a cancel injected before every step, also followed by 4 symbolic "
              "reorderings; loop workloads included. "
-             "Several rebuilds on one replayer / snapshot store (snapshot at p, full rebuild, prefix q >= p, full rebuild again) must not influence each other.",
+             "Several rebuilds on one replayer / snapshot store (snapshot at p, full rebuild, prefix q >= p, full rebuild again) must not influence each other; a second live execution in the same database with symbolically interleaved messages: each log replays to its own execution only.",
         note="Bounds: workloads of the fixed family, 2-4 choice points, logs of <=60 events; entities whose last durable status was force-written "
              "by a jump are excluded as the property says (an entity re-run through the regular steps after a re-arm is included). The solver contributes the exhaustive choice of schedule / q / p; each path is a concrete run.",
         design="3/C12",
